@@ -12,7 +12,7 @@
    [run_case]  wire entry point. *)
 From Coq Require Import ZArith List Bool Arith.
 Import ListNotations.
-From GV Require Import Common.Wire gen.Gen_memo C01.Heap C01.Model.
+From GV Require Import Common.Wire gen.Gen_memo C01.Heap C01.Model C05.Memo.
 Close Scope Z_scope.
 
 (* ------------------------------------------------------------------ specification: fresh evaluation *)
@@ -358,6 +358,20 @@ Definition dec_op (t : tree) : option op :=
   | _ => None
   end.
 
+(* ---- the translated memoize / clear_cache (C05.Memo) on a history of calls and clears *)
+Definition dec_hop (t : tree) : option hop :=
+  match t with
+  | T 1%Z [T f _; T mk _; T h _; T kid _; T 0%Z []] => Some (HCall (zn f) (mkcall (negb (Z.eqb mk 0)) (negb (Z.eqb h 0)) (mkkey 0 (zn kid) 0 0 0) None))
+  | T 1%Z [T f _; T mk _; T h _; T kid _; T 1%Z [T a _]] => Some (HCall (zn f) (mkcall (negb (Z.eqb mk 0)) (negb (Z.eqb h 0)) (mkkey 0 (zn kid) 0 0 0) (Some (zn a))))
+  | T 2%Z [T f _] => Some (HClear (zn f))
+  | T 3%Z [] => Some HClearAll
+  | _ => None
+  end.
+
+Definition enc_res (r : res) : tree :=
+  match r with RVal a => T 1%Z [leaf (nz a)] | RExc x => T 2%Z [leaf (nz x)] | RStuck => T 3%Z [] end.
+
+
 Definition run_case (t : tree) : tree :=
   match t with
   (* 1: a history under the policy of the current source: results as the code returns them, and what fresh objects return *)
@@ -383,6 +397,20 @@ Definition run_case (t : tree) : tree :=
     match table_policy (zn p) with
     | Some (s, b) => T 1 [leaf (nz s); leaf (of_bool b); leaf (of_bool (uncond_of (zn p)))]
     | None => T 0 []
+    end
+  (* 4: n decorated functions, a history of calls / clear_cache / clear_mask_caches through the translated memoize *)
+  | T 4 [T n _; T _ ops] =>
+    match sequence (map dec_hop ops), decorate_all memoize_pre memoize_post (zn n) with
+    | Some h, Some st0 =>
+      match run_hist memoize_wrapper clear_cache_body h st0 with
+      | Some (st1, rs) =>
+        T 1 [T 0 (map enc_res rs);
+             T 0 (map (fun w => T 0 [match w_cell w with Some r => leaf (nz r) | None => leaf (-1) end;
+                                     match w_cache w with Some r => leaf (nz r) | None => leaf (-1) end]) (m_ws st1));
+             T 0 (map (fun d => leaf (nz (length d))) (m_dicts st1))]
+      | None => err 4
+      end
+    | _, _ => err 3
     end
   | _ => err 2
   end.
